@@ -23,7 +23,7 @@
 static const char *bufs_[] = {
 	"",
 	"ab cd\n",
-	"a\xe4\xb8\xad" "b\n\n\t(x) \xd8\xa8\xd8\xa7 e\xcc\x81\n",	/* wide, empty line, tab, brackets, RTL, combining */
+	"a\xe4\xb8\xad" "b\n\n\t(x) \xd8\xa8\xd8\xa7 e\xcc\x81 \xf4\x8f\xbf\xbd\xf3\xa0\x87\xb0\n",	/* wide, empty line, tab, brackets, RTL, combining, U+10FFFD and U+E01F0 (beyond the last range of the width tables) */
 	"one\ntwo\nthree\nfour\nfive\nsix\nseven\neight\n",
 };
 static const char *wins[][2] = {{"6", "20"}, {"2", "2"}, {"3", "5"}, {"25", "80"}};
